@@ -34,6 +34,7 @@ inline Plan Gen(uint64_t seed)
    std::string s = "prog 0";
    const int pre = (int) wl.below(3); if (pre) s += " S" + I(pre);     // queued before the thread is started
    if (wl.oneIn(4)) s += " P" + I(1 + wl.below(2));                     // replies queued (by the subclass) before the thread is started
+   if (Rng(seed, "ows").oneIn(4)) s += " OWS";   // the owner asks for its wake-up socket before the thread exists (the socket pair is created then, with Messages possibly queued already and no byte sent for them)
    if (wl.oneIn(8)) s += " STARTF";   // a first attempt on which the creation of the signalling sockets fails (out of descriptors): it must fail cleanly and a retry must work
    s += " START";
    const int cycles = wl.oneIn(4) ? 2 : 1;
@@ -219,6 +220,7 @@ inline void Exec(const Plan & plan, RunResult & res)
       for (const std::string & op : progs[0])
       {
          if (op == "Y") thr::Yield();
+         else if (op == "OWS") {(void) t.GetOwnerWakeupSocket(); res.stats.inc("p.owner_socket_requested_before_start");}
          else if (op == "STARTF")
          {
             if (!running)
